@@ -131,4 +131,11 @@ def clonedIds : Nat → List Outcome → List Id
   | _ + 1, .panic :: _ => []
   | n + 1, .ret id :: o => id :: clonedIds n o
 
+/-- ids that `extend_with` / `resize` bring into the accounting: the clones that were made and `value` -/
+def extendWithIns (room : Bool) (n : Nat) (value : Id) (o : List Outcome) : List Id :=
+  (if room then clonedIds (n - 1) o else []) ++ [value]
+
+def resizeIns (room : Bool) (xs : List Id) (newLen : Nat) (value : Id) (o : List Outcome) : List Id :=
+  if newLen > xs.length then extendWithIns room (newLen - xs.length) value o else [value]
+
 end Coll
